@@ -19,12 +19,24 @@ LEVEL = "proof"
 LEVEL_TEXT = ("Lean 4 theorems for all states of the per-target decision model: a tainted selected target whose dependencies succeeded "
               "executes even with a valid result and the taint is gone when its execution has succeeded; a no-cache target always executes "
               "and is never restored; with the cache disabled every target whose dependencies succeeded executes; in all three cases the "
-              "output hash handed to dependants is a function of the produced output values only (injective in (definition, value)), so "
-              "dependants' keys change only if outputs changed. Regression witnesses for the unrepaired behaviours. Tied by history "
+              "output hash handed to dependants is a function of the produced output values only (injective in (definition, value); a target "
+              "without outputs exposes its own key in all three cases, outputless_exposes_key), so "
+              "dependants' keys change only if outputs changed. Lifted to whole builds and histories: in a mode-all build over a well-formed "
+              "order a selected target whose dependencies succeeded is executed if it is tainted at the start / no-cache / the cache is "
+              "disabled (forced_executed_in_build); its taint is gone iff the build marked it successful (taint_after_build); a pending taint "
+              "survives edits, taints, lost blobs and builds that do not select it (taint_survives) and forces the next selecting build "
+              "(taint_forces_next_selecting_build); under load_outputs=minimal the same commands execute (forced_executed_minimal, via "
+              "C15's lock step). Regression witnesses for the unrepaired behaviours. Tied by history "
               "correspondence with the real CLI and an in-process test of the real Executor with a slow taint store.")
 LEVEL_NOTE = ("The asynchronous taint clear of the old code is modelled as 'clear does not happen before the build returns' "
               "(Fixes.syncTaint=false); on the real side that schedule is forced by a slow taint backend in an overlaid test. "
-              "A toggled no-cache tag changes the representation of the output hash and so invalidates dependants once (modelled as the code does).")
+              "A toggled no-cache tag changes the representation of the output hash and so invalidates dependants once (modelled as the code does). "
+              "dependants_iff_outputs_changed is the injectivity of the model's output-hash constructors (the string level is C09); that a "
+              "dependant with unchanged dependency hashes is NOT executed is C02.unchanged_not_executed / early_cutoff (per step) and the "
+              "taint-only executed-set oracle. `grog taint <patterns>` is a list of labels in the model; pattern / tag selection of the "
+              "taint command is compared on the real CLI (oracle taint-command-skipped-selected-target); a taint namespace spanning a "
+              "local and a remote tier is C08's model (Remote). The minimal-mode corollary needs C15's hypotheses (well-formed builds, no "
+              "lost blobs, check files not declared outputs).")
 TECHNIQUE = "Lean 4 proof over an executable model + history correspondence with the real CLI + in-process Executor test"
 OBLIGATIONS = [
     "Grog.C13.tainted_executes",
@@ -34,12 +46,22 @@ OBLIGATIONS = [
     "Grog.C13.no_cache_never_restored",
     "Grog.C13.disabled_executes_all",
     "Grog.C13.dependants_iff_outputs_changed",
+    "Grog.C13.outputless_exposes_key",
+    "Grog.C13.outputless_disabled_witness",
     "Grog.C13.async_taint_witness",
+    "Grog.C13.forced_executed_in_build",
+    "Grog.C13.taint_after_build",
+    "Grog.C13.taint_kept_if_not_selected",
+    "Grog.C13.taint_survives",
+    "Grog.C13.taint_forces_next_selecting_build",
+    "Grog.C13.forced_executed_minimal",
 ]
 ASSUMPTIONS = [
     "output-hash computations injective on (definition, value) lists (C09.outHash_inj; no-cache variant repaired by 6f6e2f5)",
     "builds are atomic per-target steps; the taint store is the local cache backend",
 ]
+
+SIG_OUTLESS = "taint-only-executed-set:outputless-target-record-from-disabled-build"
 
 FAMILIES_QUICK = [("taint", 9, {}), ("nocache", 7, {}), ("disabled", 6, {}), ("taintdis", 6, {}), ("taintfail", 7, {}), ("tool", 5, {}),
                   ("outless", 5, {"minimal": True}), ("taint", 4, {"minimal": True}), ("nocache", 4, {"minimal": True})]
@@ -191,8 +213,17 @@ def run(ctx):
                 cnt["taint_only_builds"] += 1
                 expect = set(t_sel) | set(nc)
                 if ex != expect:
+                    sig = "taint-only-executed-set"
+                    extra = ex - expect
+                    # (repaired finding, the signature is kept) an output-less (cached) target that ran while the cache was disabled left a
+                    # record that is a usable hit later and exposed the no-cache output hash; when the target ran again with the cache
+                    # enabled it exposed its own change hash instead, and its dependants were invalidated once although nothing changed
+                    disabled_before = any(x["k"] == "build" and not x.get("enable_cache", True) for x in H.truncate(h, b["n"] + 1)["steps"])
+                    bare = {d for d in ws["targets"] if not ws["targets"][d]["outs"] and not ws["targets"][d].get("nocache") and d in ex}
+                    if extra and not (expect - ex) and disabled_before and bare and extra <= H.descendants(ws, bare):
+                        sig = SIG_OUTLESS
                     fail("after taints only, the executed set is not exactly the tainted and no-cache targets (a dependant was invalidated "
-                         "although outputs reproduced, or a forced target was skipped)", h, b, "taint-only-executed-set", expected=sorted(expect))
+                         "although outputs reproduced, or a forced target was skipped)", h, b, sig, expected=sorted(expect))
     # --- in-process: the taint is consumed when Execute returns ------------------------------------
     rc, out = vlib.go_test("./internal/execution/", "TestVerifTaintConsumedWhenBuildReturns", timeout=600)
     ctx.coverage["inprocess_taint_test_rc"] = rc
